@@ -1,5 +1,6 @@
 import Zog.Wire
 import Zog.Spec
+import Zog.Builder
 import Zog.Msg
 import Zog.Gen.Tables
 import Zog.Gen.Facts
@@ -84,6 +85,50 @@ def runPred (args : List Sexp) : Option Sexp := do
     pure (node "res" [id, mkBool (t.pred d), mkStr t.code, .list (t.params.map fun (k, v) => .list [mkStr k, mkStr v])])
   | _ => none
 
+/-- table of named custom coercers (WithCoercer) -/
+def namedCoercer : String → Option (Val → Option DVal)
+  | "plus100" => some fun v => match v with
+    | .int .int n => some (.int .int (n + 100))
+    | _ => none
+  | "strlen" => some fun v => match v with
+    | .str s => some (.int .int s.utf8ByteSize)
+    | _ => none
+  | _ => none
+
+def call? (o : Oracle) : Sexp → Option Builder.Call
+  | .list [.atom "not"] => some .not
+  | .list [.atom "t", t] => do
+    let (b, os) ← testParts? o t
+    pure (.test b (fun x => applyOpts x os))
+  | .list [.atom "tf", t] => do pure (.testFunc (← test? o t))
+  | .list [.atom "req", id, os] => do pure (.required (requiredTest (← id.nat?) (← topts? os)))
+  | .list [.atom "opt"] => some .optional
+  | .list [.atom "dflt", x] => do pure (.default (← dval? x))
+  | .list [.atom "catch", x] => do pure (.catch_ (← dval? x))
+  | .list [.atom "post", p] => do pure (.post (← post? p))
+  | _ => none
+
+/-- `(chain ID MODE KIND COERCER (CALL...) DEST INPUT EXT)`: a builder chain folded by the builder
+    model, then executed -/
+def runChain (args : List Sexp) : Option Sexp := do
+  match args with
+  | [id, .atom mode, kind, .atom coercer, .list calls, destS, inputS, extS] =>
+    let m ← match mode with
+      | "p" => some Mode.parse
+      | "v" => some Mode.validate
+      | _ => none
+    let o ← oracle? extS
+    let k ← pkind? kind
+    let calls ← calls.mapM (call? o)
+    let co ← if coercer == "-" then some (defaultCoercer o.ext k "RFC3339") else namedCoercer coercer
+    let p := Builder.toPrim k co (Builder.run calls)
+    let d ← dval? destS
+    let v ← val? inputS
+    let env : Env := { fmt := defaultFmt Gen.defaultMap, ω := fun _ => [] }
+    let r := Spec.run env m (.prim p) none v d
+    pure (node "res" [id, issueMapS (toIssueMap r.2.sink), node "dest" [dvalS r.1], node "log" (r.2.log.map eventS)])
+  | _ => none
+
 /-- `(path ID SEG...)`: PathBuilder.String on a segment stack -/
 def runPath (args : List Sexp) : Option Sexp := do
   match args with
@@ -123,6 +168,10 @@ def dispatch (line : String) : String :=
       match runEngine args with
       | some r => toString r
       | none => "(bad-case engine)"
+    | some ("chain", args) =>
+      match runChain args with
+      | some r => toString r
+      | none => "(bad-case chain)"
     | some ("path", args) =>
       match runPath args with
       | some r => toString r
